@@ -40,6 +40,10 @@ PROPS = {
     "C07": dict(suites={"plan": dict(fields=LAYOUT, oracles=["isolated"]),
                         "exec": dict(fields=XLAYOUT, oracles=["no_overlap", "inside", "borrow_panic", "par_eq_seq(world)", "par_eq_seq(states)",
                                                               "once", "preds_done", "unexpected_panic"], kf1=True)}),
+    "C08": dict(suites={"world": dict(fields=["outcome", "probe", "ledger", "end", "driver-exception"],
+                                      oracles=["fail_preserves", "none_iff_absent", "borrow_class"])}),
+    "C09": dict(suites={"world": dict(fields=["outcome", "probe", "ledger", "end", "driver-exception"],
+                                      oracles=["mismatch_panics", "drop_once", "fail_preserves"])}),
     "C10": dict(suites={"plan": dict(fields=LAYOUT + ["maxthr"], oracles=["skip_justified", "max_threads"])}),
     "C12": dict(suites={"plan": dict(fields=["tl", "tlorder", "sendable", "driver-exception"], oracles=["tl_order", "sendable", "sendable_preserves_plan"]),
                         "exec": dict(fields=XLAYOUT, oracles=["tl_on_caller", "inner_tl_on_caller", "tl_last"], kf1=True)}),
@@ -269,7 +273,8 @@ def main():
             theorems=proofs.get("theorems", []), axioms=proofs.get("axioms", []),
             evaluations=evals, distinct_nontrivial=dn,
             rule="cases = generated inputs executed on the real crate AND on the extracted model; distinct = distinct canonical case text "
-                 "(md5); non-trivial per suite rule (plan: a group of >=2 systems, >=2 stages, a batch, a dependency or a rejected call)",
+                 "(md5); non-trivial per suite rule (plan: a group of >=2 systems, >=2 stages, a batch, a dependency or a rejected call; "
+                 "exec: >= 2 systems; world: a history of >= 2 operations)",
             samples=samples, suites=suite_stats,
             disagreements=len(disagreements), oracle_failures=len(violations),
             known_findings_reported=sorted(reported_known),
